@@ -76,9 +76,8 @@ def inputsAtFrame (s : Spectator) (frameToGrab : Frame) : M (Except GgrsError (L
     let cs := rget s.hostConnectStatus h
     (pi.input, if cs.disconnected && cs.lastFrame < frameToGrab then .disconnected else .confirmed))
 
-def advanceFrame (s : Spectator) (now : Nat) (received : List (Nat × Msg)) :
-    M (Spectator × Except GgrsError (List Request)) := do
-  let s ← s.pollRemoteClients now received
+/-- `advance_frame` after the poll: how many frames to hand out, then the loop. -/
+def advanceAfterPoll (s : Spectator) : M (Spectator × Except GgrsError (List Request)) := do
   if !s.running then return (s, .error .notSynchronized)
   let behind ← s.framesBehindHost
   let toAdvance := if behind > s.maxFramesBehind then
@@ -91,6 +90,11 @@ def advanceFrame (s : Spectator) (now : Nat) (received : List (Nat × Msg)) :
       | .error e => return (s, .error e)
       | .ok inputs => loop n { s with currentFrame := s.currentFrame + 1 } (reqs ++ [.advance inputs])
   loop toAdvance s []
+
+def advanceFrame (s : Spectator) (now : Nat) (received : List (Nat × Msg)) :
+    M (Spectator × Except GgrsError (List Request)) := do
+  let s ← s.pollRemoteClients now received
+  s.advanceAfterPoll
 
 def events (s : Spectator) : Spectator × List Event := ({ s with eventQueue := [] }, s.eventQueue)
 
